@@ -92,7 +92,7 @@ func writeEvidence(def *checkDef, b *builder, results []*itemResult, nviol int, 
 	cov := map[string]interface{}{
 		"evaluations":         evals,
 		"distinct_nontrivial": distinct,
-		"rule": fmt.Sprintf("%v  [distinct_nontrivial is a measured lower bound: fingerprints (SHA-256 of the merged event log) of non-trivial runs are hashed into a 2^26-bit bitmap per workload/variant and the set bits are counted; non-trivial runs total %d]", rules, nontrivial),
+		"rule":                fmt.Sprintf("%v  [distinct_nontrivial is a measured lower bound: fingerprints (SHA-256 of the merged event log) of non-trivial runs are hashed into a 2^26-bit bitmap per workload/variant and the set bits are counted; non-trivial runs total %d]", rules, nontrivial),
 		"samples":             samples,
 		"nontrivial_runs":     nontrivial,
 		"runs_per_hour":       uint64(perHour),
